@@ -19,6 +19,9 @@ type akaTok struct {
 	W   string // "1", "2", ... or "v" (variable)
 	To  string // field:<Struct.Field> | const:<k> | drop | pad
 	Pos string
+	At  *LF    // encode, cursor style: position of the write in the result buffer
+	Len *LF    // encode, cursor style: number of octets a variable-width write copies
+	Hi  *LF    // encode, cursor style: end of the window a variable-width write may fill
 	Src string // decode, variable-width reads: what the number of octets read derives from ("bits": the two octets after the length, divided by 8; "octets": those octets unscaled; "length": the length octet only)
 }
 
@@ -387,7 +390,85 @@ func (c *Ctx) akaEncodePaths(fn *ssa.Function) (header akaPath, body []akaPath, 
 	// the attribute loop: the one loop that emits octets (binary.Write / buffer writes / appends of octets);
 	// a key-collecting loop folded into Marshal emits none
 	var li *loopInfo
+	fa := c.NewFA(fn)
+	bx := newBVCtx(c, fa)
+	// cursor style: the result is one zeroed buffer of the final size (make([]byte, n), returned as it is) that is
+	// filled at a running offset; its writes are the emissions, each with its position
+	var resBuf *ssa.MakeSlice
+	for _, b := range fn.Blocks {
+		if ret, ok := b.Instrs[len(b.Instrs)-1].(*ssa.Return); ok && len(ret.Results) >= 1 {
+			if mk, ok := ret.Results[0].(*ssa.MakeSlice); ok && isPlainByteSlice(mk.Type()) && mk.Len == mk.Cap {
+				resBuf = mk
+			}
+		}
+	}
+	// bufWrite: ins writes into resBuf: position, tokens
+	bufWrite := func(ins ssa.Instruction) (LF, []akaTok, bool) {
+		if resBuf == nil {
+			return LF{}, nil, false
+		}
+		pos := c.InstrPos(ins)
+		dataTok := func(w string, data ssa.Value) akaTok {
+			if k, ok := data.(*ssa.Const); ok && k.Value != nil {
+				return akaTok{W: w, To: "const:" + k.Value.ExactString(), Pos: pos}
+			}
+			if fk, ok := fieldKeyOfLoad(data); ok {
+				return akaTok{W: w, To: "field:" + fk, Pos: pos}
+			}
+			return akaTok{W: w, To: "?", Pos: pos}
+		}
+		switch x := ins.(type) {
+		case *ssa.Store:
+			ia, ok := x.Addr.(*ssa.IndexAddr)
+			if !ok || !isByteSlice(ia.X.Type()) {
+				return LF{}, nil, false
+			}
+			root, lo, _, _ := fa.relSpan(ia.X)
+			if root != ssa.Value(resBuf) {
+				return LF{}, nil, false
+			}
+			return fa.unwrapOffset(lo.add(fa.LFOf(ia.Index), 1)), nil, true
+		case *ssa.Call:
+			if bi, ok := x.Call.Value.(*ssa.Builtin); ok && bi.Name() == "copy" {
+				root, lo, hi, _ := fa.relSpan(x.Call.Args[0])
+				if root != ssa.Value(resBuf) {
+					return LF{}, nil, false
+				}
+				t := akaTok{W: "v", To: "?", Pos: pos}
+				if fk, ok := fieldKeyOfLoad(x.Call.Args[1]); ok {
+					t.To = "field:" + fk
+				}
+				ln := fa.SliceLen(x.Call.Args[1])
+				t.Len = &ln
+				h := fa.unwrapOffset(hi)
+				t.Hi = &h
+				return fa.unwrapOffset(lo), []akaTok{t}, true
+			}
+			if cal := x.Call.StaticCallee(); cal != nil {
+				n := 0
+				switch cal.String() {
+				case "(encoding/binary.bigEndian).PutUint16":
+					n = 2
+				case "(encoding/binary.bigEndian).PutUint32":
+					n = 4
+				case "(encoding/binary.bigEndian).PutUint64":
+					n = 8
+				}
+				if n > 0 {
+					root, lo, _, _ := fa.relSpan(x.Call.Args[1])
+					if root != ssa.Value(resBuf) {
+						return LF{}, nil, false
+					}
+					return fa.unwrapOffset(lo), []akaTok{dataTok(fmt.Sprint(n), x.Call.Args[2])}, true
+				}
+			}
+		}
+		return LF{}, nil, false
+	}
 	emits := func(ins ssa.Instruction) bool {
+		if _, _, ok := bufWrite(ins); ok {
+			return true
+		}
 		call, ok := ins.(*ssa.Call)
 		if !ok {
 			return false
@@ -518,8 +599,6 @@ func (c *Ctx) akaEncodePaths(fn *ssa.Function) (header akaPath, body []akaPath, 
 		}
 		return akaTok{W: w, To: to, Pos: c.InstrPos(ins)}, true
 	}
-	fa := c.NewFA(fn)
-	bx := newBVCtx(c, fa)
 	// one octet written by value: which field octet (or constant) it is
 	octetTok := func(v ssa.Value, pos string) akaTok {
 		for {
@@ -562,6 +641,16 @@ func (c *Ctx) akaEncodePaths(fn *ssa.Function) (header akaPath, body []akaPath, 
 	toksOf := func(ins ssa.Instruction) []akaTok {
 		if t, ok := tokOf1(ins); ok {
 			return []akaTok{t}
+		}
+		if at, ts, ok := bufWrite(ins); ok {
+			if st, isStore := ins.(*ssa.Store); isStore {
+				ts = []akaTok{octetTok(st.Val, c.InstrPos(ins))}
+			}
+			for i := range ts {
+				a := at
+				ts[i].At = &a
+			}
+			return ts
 		}
 		// out := []byte{b0, b1, ...} as the start of the output: the literal's octets are the first ones emitted
 		if sl, ok := ins.(*ssa.Slice); ok && isPlainByteSlice(sl.Type()) && sl.Low == nil && sl.High == nil {
@@ -686,6 +775,158 @@ func (c *Ctx) akaEncodePaths(fn *ssa.Function) (header akaPath, body []akaPath, 
 		}
 		return nil
 	}
+	// cursor style: the writes of one path lie back to back from the cursor on; what the cursor skips behind the
+	// last write is fill (the buffer is zeroed and nothing else writes it)
+	var cursorErr error
+	cursorStyle := func(ts []akaTok) bool {
+		for _, t := range ts {
+			if t.At != nil {
+				return true
+			}
+		}
+		return false
+	}
+	strip := func(ts []akaTok) []akaTok {
+		out := make([]akaTok, len(ts))
+		for i, t := range ts {
+			t.At, t.Len, t.Hi = nil, nil, nil
+			out[i] = t
+		}
+		return out
+	}
+	// contiguous checks that ts tile the buffer from start on; returns the position behind the last write
+	contiguous := func(ts []akaTok, start LF) (LF, error) {
+		pos := start
+		for _, t := range ts {
+			if t.At == nil {
+				return pos, fmt.Errorf("an emission that is not a write into the result buffer (%s) among writes at a cursor", t.Pos)
+			}
+			if t.At.key() != pos.key() {
+				return pos, fmt.Errorf("the write at %s is at %s, the octets before it end at %s", t.Pos, fa.Show(*t.At), fa.Show(pos))
+			}
+			switch {
+			case t.W == "v" && t.Len != nil:
+				pos = pos.add(*t.Len, 1)
+			case t.W == "v":
+				return pos, fmt.Errorf("a write of unknown width at %s", t.Pos)
+			default:
+				var n int64
+				fmt.Sscan(t.W, &n)
+				pos = pos.add(konst(n), 1)
+			}
+		}
+		return pos, nil
+	}
+	// resolveOnPath: a position that is a φ of a merge inside the loop body (offset after an optional field) has,
+	// on a given path, the value of the edge the path came in through
+	resolveOnPath := func(l LF, path []*ssa.BasicBlock) LF {
+		for round := 0; round < 4; round++ {
+			changed := false
+			for a, k := range l.T {
+				ph, ok := fa.atomDef(a).(*ssa.Phi)
+				if !ok || ph.Block() == li.header {
+					continue
+				}
+				for i := 1; i < len(path); i++ {
+					if path[i] != ph.Block() {
+						continue
+					}
+					for j, p := range ph.Block().Preds {
+						if p == path[i-1] {
+							l = l.add(LF{T: map[int]int64{a: 1}}, -k).add(fa.unwrapOffset(fa.LFOf(ph.Edges[j])), k)
+							changed = true
+						}
+					}
+					break
+				}
+				if changed {
+					break
+				}
+			}
+			if !changed {
+				break
+			}
+		}
+		return l
+	}
+	resolveToks := func(ts []akaTok, path []*ssa.BasicBlock) []akaTok {
+		out := make([]akaTok, len(ts))
+		for i, t := range ts {
+			if t.At != nil {
+				v := resolveOnPath(*t.At, path)
+				t.At = &v
+			}
+			if t.Hi != nil {
+				v := resolveOnPath(*t.Hi, path)
+				t.Hi = &v
+			}
+			out[i] = t
+		}
+		return out
+	}
+	labelConsistent := func(label []string) bool {
+		eq := ""
+		for _, l := range label {
+			if strings.HasPrefix(l, "==") {
+				if eq != "" && eq != l[2:] {
+					return false
+				}
+				eq = l[2:]
+			}
+		}
+		for _, l := range label {
+			if strings.HasPrefix(l, "!=") && eq != "" && l[2:] == eq {
+				return false
+			}
+		}
+		return true
+	}
+	var cursorPhi *ssa.Phi
+	finishCursor := func(ts []akaTok, from *ssa.BasicBlock) (withPad, plain []akaTok, err error) {
+		if len(ts) == 0 || ts[0].At == nil {
+			return nil, nil, fmt.Errorf("cursor-style path without a first write")
+		}
+		// the cursor: the integer φ of the loop header the first write is at
+		if cursorPhi == nil {
+			for _, ins := range li.header.Instrs {
+				if ph, ok := ins.(*ssa.Phi); ok && isIntType(ph.Type()) && fa.LFOf(ph).key() == ts[0].At.key() {
+					cursorPhi = ph
+				}
+			}
+		}
+		if cursorPhi == nil {
+			return nil, nil, fmt.Errorf("the first write of an attribute (%s) is not at a loop-carried offset", ts[0].Pos)
+		}
+		end, err := contiguous(ts, fa.LFOf(cursorPhi))
+		if err != nil {
+			return nil, nil, err
+		}
+		var next *LF
+		for i, p := range li.header.Preds {
+			if p == from {
+				n := fa.unwrapOffset(fa.LFOf(cursorPhi.Edges[i]))
+				next = &n
+			}
+		}
+		if next == nil {
+			return nil, nil, fmt.Errorf("cannot find the cursor's next value")
+		}
+		rest := next.add(end, -1)
+		if rest.isConst() && rest.C == 0 {
+			return nil, strip(ts), nil
+		}
+		if lo, _ := fa.bounds(rest, fa.refine(fa.FactsAt(from))); lo < 0 {
+			// unless the last write is confined to a window that ends where the next record starts: it then
+			// writes at most up to there (that the value fits is what the negative-padding test is for)
+			last := ts[len(ts)-1]
+			if last.Hi == nil || last.Hi.key() != next.key() {
+				return nil, nil, fmt.Errorf("the cursor may move to %s, before the end of what was written (%s)", fa.Show(*next), fa.Show(end))
+			}
+		}
+		plain = strip(ts)
+		withPad = append(append([]akaTok(nil), plain...), akaTok{W: "v", To: "pad", Pos: c.InstrPos(cursorPhi)})
+		return withPad, plain, nil
+	}
 	cur := fn.Blocks[0]
 	seen := map[*ssa.BasicBlock]bool{}
 	for cur != li.header && !seen[cur] {
@@ -713,7 +954,8 @@ func (c *Ctx) akaEncodePaths(fn *ssa.Function) (header akaPath, body []akaPath, 
 		cur = next
 	}
 	header.Label = "header"
-	header.Toks = mergeOctetToks(header.Toks)
+	headerRaw := header.Toks
+	header.Toks = mergeOctetToks(strip(header.Toks))
 	// loop body: paths from the header's body successor back to the header
 	var pathOrder []*ssa.BasicBlock // blocks of the path being walked, in order
 	var walk func(b *ssa.BasicBlock, toks []akaTok, label []string, visited map[*ssa.BasicBlock]bool, depth int)
@@ -722,6 +964,24 @@ func (c *Ctx) akaEncodePaths(fn *ssa.Function) (header akaPath, body []akaPath, 
 			return
 		}
 		if b == li.header && depth > 0 {
+			if cursorStyle(toks) {
+				from := pathOrder[depth-2]
+				if !labelConsistent(label) {
+					return // a combination of branch decisions no attribute type takes
+				}
+				withPad, plain, cerr := finishCursor(resolveToks(toks, pathOrder[:depth-1]), from)
+				if cerr != nil {
+					cursorErr = cerr
+					return
+				}
+				if withPad != nil {
+					body = append(body, akaPath{Label: strings.Join(append(append([]string(nil), label...), "optT"), ","), Toks: mergeOctetToks(withPad)})
+					body = append(body, akaPath{Label: strings.Join(append(append([]string(nil), label...), "optF"), ","), Toks: mergeOctetToks(plain)})
+				} else {
+					body = append(body, akaPath{Label: strings.Join(label, ","), Toks: mergeOctetToks(plain)})
+				}
+				return
+			}
 			body = append(body, akaPath{Label: strings.Join(label, ","), Toks: mergeOctetToks(toks)})
 			return
 		}
@@ -796,6 +1056,37 @@ func (c *Ctx) akaEncodePaths(fn *ssa.Function) (header akaPath, body []akaPath, 
 	for _, s := range li.header.Succs {
 		if li.body[s] {
 			walk(s, nil, nil, map[*ssa.BasicBlock]bool{}, 1)
+		}
+	}
+	if cursorErr != nil {
+		return header, nil, cursorErr
+	}
+	if cursorPhi != nil {
+		// the fixed part tiles the buffer from 0 to the cursor's first value, and nothing writes the buffer
+		// outside the fixed part and the attribute loop (the fill octets stay zero)
+		var init *LF
+		for i, p := range li.header.Preds {
+			if !li.body[p] {
+				v := fa.LFOf(cursorPhi.Edges[i])
+				init = &v
+			}
+		}
+		end, err := contiguous(headerRaw, konst(0))
+		if err != nil {
+			return header, nil, err
+		}
+		if init == nil || end.key() != init.key() {
+			return header, nil, fmt.Errorf("the fixed part ends at %s but the first attribute is written at the cursor's first value", fa.Show(end))
+		}
+		for _, b := range fn.Blocks {
+			if li.body[b] || seen[b] {
+				continue
+			}
+			for _, ins := range b.Instrs {
+				if _, _, ok := bufWrite(ins); ok {
+					return header, nil, fmt.Errorf("the result buffer is written at %s, outside the fixed part and the attribute loop", c.InstrPos(ins))
+				}
+			}
 		}
 	}
 	return header, body, nil
